@@ -175,16 +175,61 @@ fn vj(j: &serde_json::Value) -> Value {
 fn replay(path: &std::path::Path, tera: &Tera) {
     let r: serde_json::Value = serde_json::from_str(&std::fs::read_to_string(path).expect("replay file")).expect("json");
     let find = |k: &str| r.get(k).or_else(|| r.get("case").and_then(|c| c.get(k))).or_else(|| r.get("input").and_then(|c| c.get(k)));
+    // values are rebuilt through the recorded route when the record names one (the route matters:
+    // it decides e.g. whether a string is stored inline or on the heap)
+    let by_label = |lab: &str| -> Option<Value> {
+        if let Some(i) = lab.strip_prefix("base pool #") {
+            pool().get(i.parse::<usize>().ok()?).cloned()
+        } else {
+            provenance_pool(tera).into_iter().find(|p| p.label == lab).map(|p| p.v)
+        }
+    };
+    let labels: Vec<String> = find("provenance").and_then(|p| p.as_array().cloned()).map(|a| a.iter().filter_map(|x| x.as_str().map(String::from)).collect()).unwrap_or_default();
     let mut vals: Vec<Value> = Vec::new();
     if let Some(vs) = find("values") { vals = vs.as_array().unwrap().iter().map(vj).collect(); }
     if let (Some(a), Some(b)) = (find("a"), find("b")) { vals = vec![vj(a), vj(b)]; }
+    if !labels.is_empty() && labels.len() == vals.len() {
+        for (i, l) in labels.iter().enumerate() {
+            if let Some(v) = by_label(l) {
+                println!("[{i}] = {l}");
+                vals[i] = v;
+            }
+        }
+    }
     if vals.is_empty() {
         if let (Some(m), Some(k)) = (find("m"), find("k")) {
-            let (m, k) = (vj(m), vj(k));
+            let (m, mut k) = (vj(m), vj(k));
+            if let Some(l) = find("provenance_of_k").and_then(|x| x.as_str()) {
+                if let Some(v) = by_label(l) {
+                    println!("k = {l}");
+                    k = v;
+                }
+            }
             let mut ctx = Context::new();
             ctx.insert_value("m", m);
             ctx.insert_value("k", k);
             for e in ["m[k]", "k in m", "m is containing(pat=k)", "m | get(key=k)"] {
+                println!("{e} => {}", eval_expr(tera, e, &ctx).json(jv));
+            }
+            return;
+        }
+        if let (Some(c), Some(x)) = (find("c"), find("x")) {
+            let (mut c, mut x) = (vj(c), vj(x));
+            if let Some(l) = find("provenance").and_then(|x| x.as_str()) {
+                if let Some((nl, el)) = l.strip_prefix("needle: ").and_then(|r| r.split_once(" | element: ")) {
+                    if let (Some(nv), Some(ev)) = (by_label(nl), by_label(el)) {
+                        if c.as_array().map_or(false, |a| a.len() == 2 && a[0].as_str() == Some("other")) {
+                            println!("x = {nl}; c = [\"other\", {el}]");
+                            x = nv;
+                            c = Value::from(vec![Value::from("other"), ev]);
+                        }
+                    }
+                }
+            }
+            let mut ctx = Context::new();
+            ctx.insert_value("c", c);
+            ctx.insert_value("x", x);
+            for e in ["x in c", "c is containing(pat=x)"] {
                 println!("{e} => {}", eval_expr(tera, e, &ctx).json(jv));
             }
             return;
@@ -238,6 +283,332 @@ fn is_ident(s: &str) -> bool {
         && !["true", "false", "none", "and", "or", "not", "in", "is", "if", "else", "loop", "True", "False", "None"].contains(&s)
 }
 
+
+/// Renders `src` and returns everything the `probe` filter saw (empty when the render failed).
+fn probe_all(tera: &Tera, src: &str, ctx: &Context) -> Vec<Value> {
+    take_probe();
+    match guarded(|| tera.render_str(src, ctx, false)) {
+        Outcome::Ok(_) => take_probe(),
+        _ => {
+            take_probe();
+            Vec::new()
+        }
+    }
+}
+
+/// One value reached through one route; `class` names the abstract value: all members of a class
+/// must be `==`, `cmp`-Equal, interchangeable as keys and as members of arrays/maps.
+struct Prov {
+    label: String,
+    class: usize,
+    v: Value,
+}
+
+#[derive(serde::Serialize)]
+struct UserRec {
+    name: String,
+}
+#[derive(serde::Serialize)]
+struct AbRec {
+    a: u32,
+    b: String,
+}
+
+/// The same abstract values obtained through every route a value can take into a template:
+/// Rust constructors, Key -> Value (owned and borrowed), serde (Context::insert,
+/// from_serializable), template literals, arithmetic, filters, loop keys, keys/pairs filters,
+/// safe and normal strings, short (<= 21 bytes, stored inline) and long strings.
+fn provenance_pool(tera: &Tera) -> Vec<Prov> {
+    let mut out: Vec<Prov> = Vec::new();
+    let mut class = 0usize;
+    let add = |out: &mut Vec<Prov>, class: usize, label: String, v: Value| {
+        out.push(Prov { label, class, v });
+    };
+    let via = |expr: &str, ctx: &Context| -> Option<Value> {
+        match eval_expr(tera, expr, ctx) {
+            Outcome::Ok(v) => Some(v),
+            _ => None,
+        }
+    };
+
+    // ---- strings
+    let long300: String = "x".repeat(300);
+    let texts: Vec<String> = vec!["a".into(), "name".into(), "key_two".into(), "".into(), "é日".into(),
+        "abcdefghijklmnopqrstu".into(), "abcdefghijklmnopqrstuv".into(), "日本語日本語日".into(), long300];
+    for t in &texts {
+        let c = class;
+        class += 1;
+        let tag = if t.len() > 40 { format!("<{} bytes>", t.len()) } else { format!("{t:?}") };
+        let l = |route: &str| format!("str {tag} via {route}");
+        add(&mut out, c, l("Value::from(&str)"), Value::from(t.as_str()));
+        add(&mut out, c, l("Value::from(String)"), Value::from(t.clone()));
+        add(&mut out, c, l("Value::safe_string"), Value::safe_string(t));
+        add(&mut out, c, l("Value::normal_string"), Value::normal_string(t));
+        add(&mut out, c, l("Value::from(Cow)"), Value::from(std::borrow::Cow::Borrowed(t.as_str())));
+        add(&mut out, c, l("Value::from(Key::String)"), Value::from(ks(t)));
+        add(&mut out, c, l("Value::from(Key::Str)"), Value::from(kb(t)));
+        add(&mut out, c, l("Key::String.as_value()"), ks(t).as_value());
+        add(&mut out, c, l("Key::Str.as_value()"), kb(t).as_value());
+        add(&mut out, c, l("from_serializable(&str)"), Value::from_serializable(t.as_str()));
+        add(&mut out, c, l("from_serializable(&String)"), Value::from_serializable(t));
+        let mut ctx = Context::new();
+        ctx.insert("x", t);
+        let nchars = t.chars().count();
+        let half: String = t.chars().take(nchars / 2).collect();
+        let rest: String = t.chars().skip(nchars / 2).collect();
+        ctx.insert("p", &half);
+        ctx.insert("q", &rest);
+        ctx.insert_value("mo", map_of(vec![(ks(t), Value::from(1u64))]));
+        ctx.insert_value("mb", map_of(vec![(kb(t), Value::from(1u64))]));
+        let mut hm = std::collections::HashMap::new();
+        hm.insert(t.clone(), 1i32);
+        ctx.insert("hm", &hm);
+        let mut bm = std::collections::BTreeMap::new();
+        bm.insert(t.as_str(), 1i32);
+        ctx.insert("bm", &bm);
+        let lit = format!("\"{t}\"");
+        let exprs: Vec<(String, String)> = vec![
+            ("Context::insert(&String)".into(), "x".into()),
+            ("template literal".into(), lit.clone()),
+            ("x ~ \"\"".into(), "x ~ \"\"".into()),
+            ("\"\" ~ x".into(), "\"\" ~ x".into()),
+            ("p ~ q".into(), "p ~ q".into()),
+            ("x | str".into(), "x | str".into()),
+            ("x | trim".into(), "x | trim".into()),
+            ("x | replace".into(), "x | replace(from=\"#\", to=\"\")".into()),
+            ("x | reverse | reverse".into(), "x | reverse | reverse".into()),
+            ("x[:]".into(), "x[:]".into()),
+            ("x | safe".into(), "x | safe".into()),
+            ("x | default".into(), "x | default(value=\"zz\")".into()),
+            ("[x] | first".into(), "[x] | first".into()),
+            ("[x] | join".into(), "[x] | join(sep=\"\")".into()),
+            ("x | split | join".into(), "x | split(pat=\"#\") | join(sep=\"#\")".into()),
+            ("keys of owned-key map".into(), "(mo | keys)[0]".into()),
+            ("keys of borrowed-key map".into(), "(mb | keys)[0]".into()),
+            ("pairs of owned-key map".into(), "(mo | pairs)[0][0]".into()),
+            ("keys of serde HashMap".into(), "(hm | keys)[0]".into()),
+            ("keys of serde BTreeMap".into(), "(bm | keys)[0]".into()),
+            ("keys of map literal".into(), format!("({{{lit}: 1}} | keys)[0]")),
+            ("literal if-else".into(), format!("{lit} if true else 1")),
+        ];
+        for (route, e) in exprs {
+            if let Some(v) = via(&e, &ctx) {
+                add(&mut out, c, l(&route), v);
+            }
+        }
+        for (route, src) in [
+            ("loop key of owned-key map", "{% for k, v in mo %}{{ k | probe }}{% endfor %}".to_string()),
+            ("loop key of borrowed-key map", "{% for k, v in mb %}{{ k | probe }}{% endfor %}".to_string()),
+            ("loop key of serde HashMap", "{% for k, v in hm %}{{ k | probe }}{% endfor %}".to_string()),
+            ("loop key of map literal", format!("{{% for k, v in {{{lit}: 1}} %}}{{{{ k | probe }}}}{{% endfor %}}")),
+            ("set then read", "{% set y = x %}{{ y | probe }}".to_string()),
+            ("captured by set-block", "{% set y %}{{ x | safe }}{% endset %}{{ y | probe }}".to_string()),
+        ] {
+            for v in probe_all(tera, &src, &ctx) {
+                add(&mut out, c, l(route), v);
+            }
+        }
+    }
+
+    // ---- integers (and the floats equal to them)
+    for z in [0i128, 1, -1, 255, 1i128 << 63, 1i128 << 64] {
+        let c = class;
+        class += 1;
+        let l = |route: &str| format!("int {z} via {route}");
+        for v in pools::int_reps(z) {
+            add(&mut out, c, l(&format!("Value::from({})", v.name())), v);
+        }
+        let mut ctx = Context::new();
+        if let Ok(x) = u64::try_from(z) {
+            add(&mut out, c, l("Value::from(Key::U64)"), Value::from(Key::U64(x)));
+            ctx.insert("u", &x);
+            add(&mut out, c, l("from_serializable(u64)"), Value::from_serializable(&x));
+            ctx.insert_value("mk", map_of(vec![(Key::U64(x), Value::none())]));
+        } else {
+            ctx.insert_value("mk", map_of(vec![(Key::I128(z), Value::none())]));
+        }
+        if let Ok(x) = i64::try_from(z) {
+            add(&mut out, c, l("Value::from(Key::I64)"), Value::from(Key::I64(x)));
+            ctx.insert("i", &x);
+            add(&mut out, c, l("from_serializable(i64)"), Value::from_serializable(&x));
+        }
+        if let Ok(x) = u8::try_from(z) {
+            ctx.insert("b", &x);
+        }
+        if let Ok(x) = u128::try_from(z) {
+            add(&mut out, c, l("Value::from(Key::U128)"), Value::from(Key::U128(x)));
+            ctx.insert("uu", &x);
+        }
+        add(&mut out, c, l("Value::from(Key::I128)"), Value::from(Key::I128(z)));
+        ctx.insert("ii", &z);
+        ctx.insert_value("w", Value::from(z));
+        ctx.insert("s", &z.to_string());
+        let f = z as f64;
+        if f as i128 == z && f.abs() < 1e30 {
+            add(&mut out, c, l("Value::from(f64)"), Value::from(f));
+            ctx.insert("f", &f);
+            add(&mut out, c, l("from_serializable(f32)"), Value::from_serializable(&(f as f32)));
+        }
+        let mut exprs: Vec<(String, String)> = vec![
+            ("Context::insert(u64)".into(), "u".into()), ("Context::insert(i64)".into(), "i".into()),
+            ("Context::insert(u8)".into(), "b".into()), ("Context::insert(u128)".into(), "uu".into()),
+            ("Context::insert(i128)".into(), "ii".into()), ("Context::insert(f64)".into(), "f".into()),
+            ("w + 0 (arithmetic result)".into(), "w + 0".into()), ("w * 1".into(), "w * 1".into()),
+            ("0 + w".into(), "0 + w".into()), ("w - 0".into(), "w - 0".into()),
+            ("s | int".into(), "s | int".into()), ("f | round".into(), "f | round".into()),
+            ("keys of int-key map".into(), "(mk | keys)[0]".into()),
+            ("f + 0".into(), "f + 0".into()),
+        ];
+        if (0..=i64::MAX as i128).contains(&z) {
+            exprs.push(("template literal".into(), format!("{z}")));
+            exprs.push(("literal + 0".into(), format!("{z} + 0")));
+            exprs.push(("float literal".into(), format!("{z}.0")));
+            exprs.push(("keys of map literal".into(), format!("({{{z}: 1}} | keys)[0]")));
+        }
+        if z == -1 {
+            exprs.push(("0 - 1".into(), "0 - 1".into()));
+            exprs.push(("-1 literal".into(), "-1".into()));
+        }
+        if z == 0 || z == 1 {
+            exprs.push(("length filter".into(), if z == 0 { "[] | length".into() } else { "[none] | length".into() }));
+            exprs.push(("loop.index".into(), if z == 0 { "[] | length".into() } else { "[7] | length".into() }));
+        }
+        for (route, e) in exprs {
+            if let Some(v) = via(&e, &ctx) {
+                if !v.is_undefined() {
+                    add(&mut out, c, l(&route), v);
+                }
+            }
+        }
+        for v in probe_all(tera, "{% for k, v in mk %}{{ k | probe }}{% endfor %}", &ctx) {
+            add(&mut out, c, l("loop key of int-key map"), v);
+        }
+    }
+
+    // ---- bools and none
+    for b in [true, false] {
+        let c = class;
+        class += 1;
+        let l = |route: &str| format!("bool {b} via {route}");
+        add(&mut out, c, l("Value::from(bool)"), Value::from(b));
+        add(&mut out, c, l("Value::from(Key::Bool)"), Value::from(Key::Bool(b)));
+        add(&mut out, c, l("from_serializable"), Value::from_serializable(&b));
+        let mut ctx = Context::new();
+        ctx.insert("x", &b);
+        ctx.insert_value("mk", map_of(vec![(Key::Bool(b), Value::none())]));
+        for (route, e) in [("Context::insert", "x".to_string()), ("template literal", format!("{b}")),
+            ("comparison result", if b { "1 == 1".to_string() } else { "1 == 2".to_string() }),
+            ("not", if b { "not false".to_string() } else { "not true".to_string() }),
+            ("and", format!("{b} and {b}")), ("in", if b { "1 in [1]".to_string() } else { "1 in []".to_string() }),
+            ("is test", if b { "1 is defined".to_string() } else { "nope is defined".to_string() }),
+            ("keys of bool-key map", "(mk | keys)[0]".to_string())]
+        {
+            if let Some(v) = via(&e, &ctx) {
+                add(&mut out, c, l(route), v);
+            }
+        }
+    }
+    {
+        let c = class;
+        class += 1;
+        add(&mut out, c, "none via Value::none()".into(), Value::none());
+        add(&mut out, c, "none via from_serializable(Option::None)".into(), Value::from_serializable(&Option::<i32>::None));
+        add(&mut out, c, "none via from_serializable(())".into(), Value::from_serializable(&()));
+        let mut ctx = Context::new();
+        ctx.insert("x", &Option::<String>::None);
+        for (route, e) in [("Context::insert(None)", "x"), ("template literal", "none"), ("[] | first", "[] | first")] {
+            if let Some(v) = via(e, &ctx) {
+                add(&mut out, c, format!("none via {route}"), v);
+            }
+        }
+    }
+
+    // ---- arrays
+    {
+        let c = class;
+        class += 1;
+        let l = |route: &str| format!("array [1, \"a\"] via {route}");
+        add(&mut out, c, l("Value::from(Vec)"), Value::from(vec![Value::from(1u64), Value::from("a")]));
+        add(&mut out, c, l("Value::from(Vec) i128 + key string"), Value::from(vec![Value::from(1i128), Value::from(ks("a"))]));
+        add(&mut out, c, l("from_serializable(tuple)"), Value::from_serializable(&(1u8, "a")));
+        let mut ctx = Context::new();
+        ctx.insert("x", &serde_json::json!([1, "a"]));
+        ctx.insert_value("mo", map_of(vec![(ks("a"), Value::from(1u64))]));
+        for (route, e) in [("Context::insert(json)", "x"), ("template literal", "[1, \"a\"]"), ("literal with arithmetic", "[0 + 1, \"\" ~ \"a\"]"),
+            ("x | reverse | reverse", "x | reverse | reverse"), ("x[:]", "x[:]"), ("x | unique", "x | unique"),
+            ("pairs entry reversed", "(mo | pairs)[0] | reverse")]
+        {
+            if let Some(v) = via(e, &ctx) {
+                add(&mut out, c, l(route), v);
+            }
+        }
+    }
+    {
+        let c = class;
+        class += 1;
+        let l = |route: &str| format!("array [\"a\", \"b\"] via {route}");
+        add(&mut out, c, l("Value::from(Vec)"), Value::from(vec![Value::from("a"), Value::from("b")]));
+        add(&mut out, c, l("from_serializable(Vec<&str>)"), Value::from_serializable(&vec!["a", "b"]));
+        let mut ctx = Context::new();
+        ctx.insert_value("mo", map_of(vec![(ks("a"), Value::from(1u64)), (ks("b"), Value::from(2u64))]));
+        for (route, e) in [("template literal", "[\"a\", \"b\"]"), ("split", "\"a,b\" | split(pat=\",\")"),
+            ("keys | sort", "mo | keys | sort"), ("keys of map literal | sort", "{\"a\": 1, \"b\": 2} | keys | sort")]
+        {
+            if let Some(v) = via(e, &ctx) {
+                add(&mut out, c, l(route), v);
+            }
+        }
+    }
+
+    // ---- maps
+    {
+        let c = class;
+        class += 1;
+        let l = |route: &str| format!("map {{a: 1, b: \"x\"}} via {route}");
+        add(&mut out, c, l("Map with Key::String"), map_of(vec![(ks("a"), Value::from(1u64)), (ks("b"), Value::from("x"))]));
+        add(&mut out, c, l("Map with Key::Str"), map_of(vec![(kb("b"), Value::safe_string("x")), (kb("a"), Value::from(1i128))]));
+        add(&mut out, c, l("from_serializable(struct)"), Value::from_serializable(&AbRec { a: 1, b: "x".into() }));
+        let mut ctx = Context::new();
+        ctx.insert("x", &serde_json::json!({"a": 1, "b": "x"}));
+        ctx.insert("r", &AbRec { a: 1, b: "x".into() });
+        for (route, e) in [("Context::insert(json)", "x"), ("Context::insert(struct)", "r"), ("template literal", "{\"a\": 1, \"b\": \"x\"}"),
+            ("literal with computed values", "{\"b\": \"\" ~ \"x\", \"a\": 0 + 1}")]
+        {
+            if let Some(v) = via(e, &ctx) {
+                add(&mut out, c, l(route), v);
+            }
+        }
+    }
+    {
+        let c = class;
+        class += 1;
+        let l = |route: &str| format!("map {{1: \"x\"}} via {route}");
+        add(&mut out, c, l("Map with Key::U64"), map_of(vec![(Key::U64(1), Value::from("x"))]));
+        add(&mut out, c, l("Map with Key::I128"), map_of(vec![(Key::I128(1), Value::from(ks("x")))]));
+        let mut bm = std::collections::BTreeMap::new();
+        bm.insert(1u8, "x");
+        add(&mut out, c, l("from_serializable(BTreeMap<u8,_>)"), Value::from_serializable(&bm));
+        let ctx = Context::new();
+        if let Some(v) = via("{1: \"x\"}", &ctx) {
+            add(&mut out, c, l("template literal"), v);
+        }
+    }
+    {
+        // a map that stores an undefined value (Rust API, and a literal with a missing field)
+        let c = class;
+        class += 1;
+        let l = |route: &str| format!("map {{nick: undefined, n: 1}} via {route}");
+        add(&mut out, c, l("Map with Value::undefined()"), map_of(vec![(ks("nick"), Value::undefined()), (ks("n"), Value::from(1u64))]));
+        let mut ctx = Context::new();
+        ctx.insert("user", &UserRec { name: "bob".into() });
+        if let Some(v) = via("{\"nick\": user.nick, \"n\": 1}", &ctx) {
+            add(&mut out, c, l("literal with a missing field"), v);
+        }
+    }
+    let _ = class;
+    out
+}
+
 fn main() {
     let args = parse_args();
     silence_panics();
@@ -257,7 +628,16 @@ fn main() {
     let mut s_lookup = Sink::new(&args.out, "lookup", hdr, "check_lookup");
     let mut s_member = Sink::new(&args.out, "member", hdr, "check_member");
 
-    let pool = pool();
+    let mut pool = pool();
+    let n_base = pool.len();
+    let prov = provenance_pool(&tera);
+    let mut labels: Vec<String> = (0..n_base).map(|i| format!("base pool #{i}")).collect();
+    let mut class_of: Vec<Option<usize>> = vec![None; n_base];
+    for p in &prov {
+        pool.push(p.v.clone());
+        labels.push(p.label.clone());
+        class_of.push(Some(p.class));
+    }
     let n = pool.len();
 
     // ---------------------------------------------------------------- API answers on all pairs
@@ -288,7 +668,8 @@ fn main() {
         *c += 1;
         if *c <= 3 {
             let vals: Vec<_> = idx.iter().map(|i| jv(&pool[*i])).collect();
-            meta.oracle_fail(&format!("law violated by the implementation: {what}"), None, json!({"values": vals}));
+            let prov: Vec<_> = idx.iter().map(|i| labels[*i].clone()).collect();
+            meta.oracle_fail(&format!("law violated by the implementation: {what}"), None, json!({"values": vals, "provenance": prov}));
         }
     };
     for i in 0..n {
@@ -338,6 +719,22 @@ fn main() {
             }
         }
     }
+    // the same abstract value reached through two routes: must be ==, Equal, and never ordered
+    let mut same_class: Vec<(usize, usize)> = Vec::new();
+    for i in n_base..n {
+        for j in n_base..n {
+            if class_of[i] == class_of[j] {
+                same_class.push((i, j));
+                law_checks += 2;
+                if !eq[i][j] {
+                    fail(&mut meta, "the same value obtained through two routes is not ==", &[i, j]);
+                }
+                if cm[i][j] != Ordering::Equal {
+                    fail(&mut meta, "the same value obtained through two routes does not compare Equal", &[i, j]);
+                }
+            }
+        }
+    }
     meta.oracle_checks += law_checks;
 
     // ---------------------------------------------------------------- api family (model side)
@@ -347,24 +744,37 @@ fn main() {
             "{{| a_a := {}; a_b := {}; a_eq := {}; a_pcmp := {}; a_cmp := {} |}}",
             gal_value(a), gal_value(b), gal_bool(eq[i][j]), gal_ocmp(pc[i][j]), gal_cmp(cm[i][j])
         );
-        let desc = json!({"a": jv(a), "b": jv(b), "impl": {"eq": eq[i][j], "partial_cmp": format!("{:?}", pc[i][j]), "cmp": format!("{:?}", cm[i][j])}});
+        let desc = json!({"a": jv(a), "b": jv(b), "provenance": [labels[i].clone(), labels[j].clone()],
+            "impl": {"eq": eq[i][j], "partial_cmp": format!("{:?}", pc[i][j]), "cmp": format!("{:?}", cm[i][j])}});
         let nontrivial = i != j && (is_container(a) || is_container(b) || a.kind() != b.kind());
         let tag = if is_container(a) && is_container(b) { "both-containers" } else if a.is_number() && b.is_number() { "both-numbers" } else { "other" };
         s.push(g, desc, nontrivial, None, &[tag]);
     };
+    // every pair of routes to the same value (identical terms with identical answers collapse in the sink)
+    for &(i, j) in &same_class {
+        push_api(&mut s_api, i, j);
+    }
     if thorough {
-        for i in 0..n {
-            for j in 0..n {
+        for i in 0..n_base {
+            for j in 0..n_base {
                 push_api(&mut s_api, i, j);
             }
         }
+        for _ in 0..4000 {
+            let (i, j) = (rng.below(n), rng.below(n));
+            push_api(&mut s_api, i, j);
+        }
     } else {
         // every value against itself and its neighbours, then a random sample
-        for i in 0..n {
+        for i in 0..n_base {
             push_api(&mut s_api, i, i);
-            push_api(&mut s_api, i, (i + 1) % n);
+            push_api(&mut s_api, i, (i + 1) % n_base);
         }
-        for _ in 0..1300 {
+        for _ in 0..1000 {
+            let (i, j) = (rng.below(n_base), rng.below(n_base));
+            push_api(&mut s_api, i, j);
+        }
+        for _ in 0..500 {
             let (i, j) = (rng.below(n), rng.below(n));
             push_api(&mut s_api, i, j);
         }
@@ -374,7 +784,7 @@ fn main() {
     let n_pair = if thorough { 3000 } else { 480 };
     let mut pair_idx: Vec<(usize, usize)> = Vec::new();
     // D2 neighbourhood first: all pairs of containers
-    let containers: Vec<usize> = (0..n).filter(|i| is_container(&pool[*i])).collect();
+    let containers: Vec<usize> = (0..n_base).filter(|i| is_container(&pool[*i])).collect();
     for &i in &containers {
         for &j in &containers {
             if thorough || rng.chance(1, 6) {
@@ -383,7 +793,14 @@ fn main() {
         }
     }
     while pair_idx.len() < n_pair {
-        pair_idx.push((rng.below(n), rng.below(n)));
+        pair_idx.push((rng.below(n_base), rng.below(n_base)));
+    }
+    // routes to the same value, through the template operators (all of them: they collapse in the
+    // sink when the answers agree, and the render side is cheap)
+    for &(i, j) in &same_class {
+        if thorough || rng.chance(1, 4) {
+            pair_idx.push((i, j));
+        }
     }
     for (i, j) in pair_idx {
         let (a, b) = (&pool[i], &pool[j]);
@@ -396,7 +813,7 @@ fn main() {
         for (r, what) in [(&req, "=="), (&rlt, "<"), (&runiq, "unique"), (&rsort, "sort")] {
             meta.oracle_checks += 1;
             if let Outcome::Panic(m) = r {
-                meta.oracle_fail(&format!("panic in `{what}`: {m}"), None, json!({"a": jv(a), "b": jv(b)}));
+                meta.oracle_fail(&format!("panic in `{what}`: {m}"), None, json!({"a": jv(a), "b": jv(b), "provenance": [labels[i].clone(), labels[j].clone()]}));
             }
         }
         // property oracle on the template answers themselves: unique keeps b iff a != b
@@ -405,7 +822,14 @@ fn main() {
             let kept = uq.as_array().map_or(0, |x| x.len());
             if (e.as_bool() == Some(true)) != (kept == 1) {
                 meta.oracle_fail("`[a, b] | unique` disagrees with `a == b`", None,
-                    json!({"a": jv(a), "b": jv(b), "a==b": jv(e), "unique": jv(uq)}));
+                    json!({"a": jv(a), "b": jv(b), "provenance": [labels[i].clone(), labels[j].clone()], "a==b": jv(e), "unique": jv(uq)}));
+            }
+        }
+        if class_of[i].is_some() && class_of[i] == class_of[j] {
+            meta.oracle_checks += 1;
+            if !matches!(&req, Outcome::Ok(e) if e.as_bool() == Some(true)) {
+                meta.oracle_fail("`a == b` is not true for the same value obtained through two routes", None,
+                    json!({"a": jv(a), "b": jv(b), "provenance": [labels[i].clone(), labels[j].clone()], "a==b": req.json(jv)}));
             }
         }
         let g = format!(
@@ -413,7 +837,7 @@ fn main() {
             gal_value(a), gal_value(b), gal_bool(eq[i][j]), gal_ocmp(pc[i][j]), gal_cmp(cm[i][j]),
             req.gal(gal_value), rlt.gal(gal_value), runiq.gal(gal_value), rsort.gal(gal_value)
         );
-        let desc = json!({"a": jv(a), "b": jv(b), "impl": {"eq": eq[i][j], "partial_cmp": format!("{:?}", pc[i][j]),
+        let desc = json!({"a": jv(a), "b": jv(b), "provenance": [labels[i].clone(), labels[j].clone()], "impl": {"eq": eq[i][j], "partial_cmp": format!("{:?}", pc[i][j]),
             "cmp": format!("{:?}", cm[i][j]), "a==b": req.json(jv), "a<b": rlt.json(jv), "[a,b]|unique": runiq.json(jv),
             "[a,b]|sort": rsort.json(jv)}});
         let nontrivial = i != j && (is_container(a) || is_container(b) || a.kind() != b.kind());
@@ -455,6 +879,94 @@ fn main() {
     lookup_vals.push(map_of(vec![(ks("a"), Value::from(1u64))]));
     lookup_vals.push(Value::bytes(vec![0x61u8]));
 
+    // one (map, operand) pair through all five lookup routes
+    let do_lookup = |meta: &mut Meta, sink: &mut Sink, m: &Value, k: &Value, prov_label: &str| {
+        let entries = sorted_entries(m.as_map().unwrap());
+        let size = entries.len();
+        let mut ctx = Context::new();
+        ctx.insert_value("m", m.clone());
+        ctx.insert_value("k", k.clone());
+        let r_idx = eval_expr(&tera, "m[k]", &ctx);
+        let r_in = eval_expr(&tera, "k in m", &ctx);
+        let r_cont = eval_expr(&tera, "m is containing(pat=k)", &ctx);
+        let r_get = eval_expr(&tera, "m | get(key=k)", &ctx);
+        let r_getd = eval_expr(&tera, "m | get(key=k, default=0)", &ctx);
+        let r_attr = match k.as_str() {
+            Some(s) if is_ident(s) => Some(eval_expr(&tera, &format!("m.{s}"), &ctx)),
+            _ => None,
+        };
+        let input = || json!({"m": jv(m), "k": jv(k), "provenance_of_k": prov_label});
+        let mut all: Vec<(&Outcome<Value>, &str)> = vec![(&r_idx, "m[k]"), (&r_in, "in"), (&r_cont, "containing"), (&r_get, "get"), (&r_getd, "get+default")];
+        if let Some(r) = &r_attr { all.push((r, "m.k")); }
+        for (r, what) in all {
+            meta.oracle_checks += 1;
+            if let Outcome::Panic(msg) = r {
+                meta.oracle_fail(&format!("panic in `{what}`: {msg}"), None, input());
+            }
+        }
+        // oracle, independent of the engine's Key Eq/Hash: the key is present iff some stored key has
+        // the same kind class and the same mathematical value / text, whatever value is stored under it
+        #[derive(PartialEq)]
+        enum NK { B(bool), Neg(i128), Pos(u128), S(String) }
+        let norm_key = |k: &Key| -> NK { match k {
+            Key::Bool(b) => NK::B(*b),
+            Key::U64(x) => NK::Pos(*x as u128),
+            Key::U128(x) => NK::Pos(*x),
+            Key::I64(x) => if *x < 0 { NK::Neg(*x as i128) } else { NK::Pos(*x as u128) },
+            Key::I128(x) => if *x < 0 { NK::Neg(*x) } else { NK::Pos(*x as u128) },
+            Key::String(s) => NK::S(s.to_string()),
+            Key::Str(s) => NK::S(s.to_string()),
+            _ => NK::S(String::from("\u{0}?")),
+        } };
+        let is_float = matches!(k.kind(), tera::value::ValueKind::F64);
+        let norm_k: Option<NK> = if let Some(b) = k.as_bool() { Some(NK::B(b)) } else if let Some(s) = k.as_str() { Some(NK::S(s.to_string())) }
+            else if is_float { None } else if let Some(u) = k.as_u128() { Some(NK::Pos(u)) } else { k.as_i128().map(NK::Neg) };
+        let is_keyish = norm_k.is_some();
+        let stored: Option<&Value> = norm_k.as_ref().and_then(|nk| entries.iter().find(|(k2, _)| norm_key(k2) == *nk).map(|(_, v)| *v));
+        let present = stored.is_some();
+        let found_in = matches!(&r_in, Outcome::Ok(v) if v.as_bool() == Some(true));
+        let found_cont = matches!(&r_cont, Outcome::Ok(v) if v.as_bool() == Some(true));
+        meta.oracle_checks += 1;
+        if found_in != present {
+            meta.oracle_fail("`k in m` does not say whether a key equal to k is stored", None, json!({"input": input(), "key_present": present, "k in m": r_in.json(jv)}));
+        }
+        if found_cont != present {
+            meta.oracle_fail("`m is containing(pat=k)` does not say whether a key equal to k is stored", None, json!({"input": input(), "key_present": present, "containing": r_cont.json(jv)}));
+        }
+        if is_keyish {
+            let expect = stored.cloned().unwrap_or(Value::undefined());
+            let same = |v: &Value| v.kind() == expect.kind() && (v.is_undefined() || *v == expect);
+            if !matches!(&r_idx, Outcome::Ok(v) if same(v)) {
+                meta.oracle_fail("m[k] is not the value stored under the key equal to k", None, json!({"input": input(), "key_present": present, "m[k]": r_idx.json(jv)}));
+            }
+            if let Some(r) = &r_attr {
+                if !matches!(r, Outcome::Ok(v) if same(v)) {
+                    meta.oracle_fail("m.k is not the value stored under the key equal to k", None, json!({"input": input(), "key_present": present, "m.k": r.json(jv)}));
+                }
+            }
+            if k.is_string() {
+                let ok = match &r_get { Outcome::Ok(v) => present && same(v), Outcome::Err(..) => !present, Outcome::Panic(_) => false };
+                if !ok {
+                    meta.oracle_fail("get(key=k) is not the value stored under the key equal to k", None, json!({"input": input(), "key_present": present, "get": r_get.json(jv)}));
+                }
+            }
+        }
+        let g = format!(
+            "{{| l_m := {}; l_k := {}; l_idx := {}; l_in := {}; l_cont := {}; l_get := {}; l_getd := {}; l_attr := {} |}}",
+            gal_value(m), gal_value(k), r_idx.gal(gal_value), r_in.gal(gal_value), r_cont.gal(gal_value),
+            r_get.gal(gal_value), r_getd.gal(gal_value), gal_opt(&r_attr, |r| r.gal(gal_value))
+        );
+        let desc = json!({"m": jv(m), "k": jv(k), "provenance_of_k": prov_label, "impl": {"m[k]": r_idx.json(jv), "k in m": r_in.json(jv),
+            "containing": r_cont.json(jv), "get": r_get.json(jv), "get+default": r_getd.json(jv),
+            "m.k": r_attr.as_ref().map(|r| r.json(jv))}});
+        let nontrivial = size >= 1 && is_keyish;
+        let tag_size = if size <= 6 { "size<=cutoff" } else { "size>cutoff" };
+        let tag_found = if present { "key-present" } else { "key-absent" };
+        let tag_attr = if r_attr.is_some() { "attr-path" } else { "no-attr" };
+        let tag_stored = match stored { Some(v) if v.is_undefined() => "stored:undefined", Some(v) if v.is_none() => "stored:none", Some(_) => "stored:value", None => "stored:-" };
+        sink.push(g, desc, nontrivial, None, &[tag_size, tag_found, tag_attr, tag_stored]);
+    };
+
     let maps_per_size = if thorough { 6 } else { 2 };
     let lookups_per_map = if thorough { 0 } else { 16 };
     for size in 0..=16usize {
@@ -482,7 +994,7 @@ fn main() {
                 if entries.iter().any(|(k2, _)| *k2 == k) {
                     continue;
                 }
-                let v = Value::from(format!("v{}", entries.len()));
+                let v = match rng.below(8) { 0 => Value::undefined(), 1 => Value::none(), _ => Value::from(format!("v{}", entries.len())) };
                 entries.push((k, v));
             }
             let m = map_of(entries.clone());
@@ -512,59 +1024,88 @@ fn main() {
                 ks_.extend(lookup_vals.iter().cloned());
             }
             for k in ks_ {
-                let mut ctx = Context::new();
-                ctx.insert_value("m", m.clone());
-                ctx.insert_value("k", k.clone());
-                let r_idx = eval_expr(&tera, "m[k]", &ctx);
-                let r_in = eval_expr(&tera, "k in m", &ctx);
-                let r_cont = eval_expr(&tera, "m is containing(pat=k)", &ctx);
-                let r_get = eval_expr(&tera, "m | get(key=k)", &ctx);
-                let r_getd = eval_expr(&tera, "m | get(key=k, default=0)", &ctx);
-                let r_attr = match k.as_str() {
-                    Some(s) if is_ident(s) => Some(eval_expr(&tera, &format!("m.{s}"), &ctx)),
-                    _ => None,
-                };
-                let mut all: Vec<(&Outcome<Value>, &str)> = vec![(&r_idx, "m[k]"), (&r_in, "in"), (&r_cont, "containing"), (&r_get, "get"), (&r_getd, "get+default")];
-                if let Some(r) = &r_attr { all.push((r, "m.k")); }
-                for (r, what) in all {
-                    meta.oracle_checks += 1;
-                    if let Outcome::Panic(msg) = r {
-                        meta.oracle_fail(&format!("panic in `{what}`: {msg}"), None, json!({"m": jv(&m), "k": jv(&k)}));
+                do_lookup(&mut meta, &mut s_lookup, &m, &k, "");
+            }
+        }
+    }
+
+    // maps that store undefined / none values, for every key kind and width, both sides of the
+    // scan cutoff, built through the Rust API and by map literals with missing variables
+    {
+        let filler = |n: usize| -> Vec<(Key<'static>, Value)> { (0..n).map(|i| (ks(&format!("fill{i}")), Value::from(i as u64))).collect() };
+        let key_variants: Vec<(Key<'static>, Vec<Value>)> = vec![
+            (ks("key"), vec![Value::from("key"), Value::safe_string("key"), Value::from(ks("key")), Value::from("nokey")]),
+            (kb("key"), vec![Value::from("key"), Value::from(ks("key"))]),
+            (Key::U64(1), vec![Value::from(1u64), Value::from(1i64), Value::from(1u128), Value::from(1i128), Value::from(2u64)]),
+            (Key::I64(-5), vec![Value::from(-5i64), Value::from(-5i128), Value::from(5u64)]),
+            (Key::U128(u128::MAX), vec![Value::from(u128::MAX), Value::from(u64::MAX)]),
+            (Key::I128(1i128 << 64), vec![Value::from(1i128 << 64), Value::from(1u128 << 64)]),
+            (Key::Bool(true), vec![Value::from(true), Value::from(false), Value::from(1u64)]),
+        ];
+        for (key, probes) in &key_variants {
+            for stored in [Value::undefined(), Value::none(), Value::from(0u64), Value::from("")] {
+                for extra in [0usize, 1, 5, 6, 12] {
+                    if !thorough && (extra == 1 || extra == 12) && !stored.is_undefined() {
+                        continue;
+                    }
+                    let mut e = filler(extra);
+                    e.push((key.clone(), stored.clone()));
+                    let m = map_of(e);
+                    for k in probes {
+                        do_lookup(&mut meta, &mut s_lookup, &m, k, "stored-undefined-or-none");
                     }
                 }
-                // oracle: the five ways of looking up agree with each other
-                meta.oracle_checks += 1;
-                let found_idx = matches!(&r_idx, Outcome::Ok(v) if !v.is_undefined());
-                let found_in = matches!(&r_in, Outcome::Ok(v) if v.as_bool() == Some(true));
-                let found_cont = matches!(&r_cont, Outcome::Ok(v) if v.as_bool() == Some(true));
-                let is_keyish = k.is_bool() || k.is_string() || (k.is_number() && k.as_f64().map_or(true, |_| k.as_i128().is_some() || k.as_u128().is_some()) && !matches!(k.kind(), tera::value::ValueKind::F64));
-                if is_keyish && (found_idx != found_in || found_in != found_cont) {
-                    meta.oracle_fail("m[k], `k in m` and containing disagree", None, json!({"m": jv(&m), "k": jv(&k)}));
+            }
+        }
+        // literals whose value expressions are missing variables / fields
+        let mut ctx = Context::new();
+        ctx.insert("user", &UserRec { name: "bob".into() });
+        ctx.insert("one", &1u64);
+        for src in ["{\"nick\": user.nick, \"name\": user.name}", "{\"nick\": user.nick, 1: user.nick, true: user.nick, \"n\": none}",
+            "{1: user.nick, 2: user.name, \"a\": 1, \"b\": 2, \"c\": 3, \"d\": 4, \"e\": user.nick}"]
+        {
+            if let Outcome::Ok(m) = eval_expr(&tera, src, &ctx) {
+                if !m.is_map() {
+                    continue;
                 }
-                if let Some(Outcome::Ok(v)) = &r_attr {
-                    if !v.is_undefined() != found_idx {
-                        meta.oracle_fail("m.k disagrees with m[k]", None, json!({"m": jv(&m), "k": jv(&k)}));
-                    }
+                for k in [Value::from("nick"), Value::from("name"), Value::from(1u64), Value::from(1i128), Value::from(true), Value::from("n"),
+                    Value::from("e"), Value::from("zz"), Value::from(2i64), Value::from(ks("nick"))]
+                {
+                    do_lookup(&mut meta, &mut s_lookup, &m, &k, "literal-with-missing-values");
                 }
-                if k.is_string() {
-                    let found_get = matches!(&r_get, Outcome::Ok(_));
-                    if found_get != found_idx {
-                        meta.oracle_fail("get(key=k) disagrees with m[k]", None, json!({"m": jv(&m), "k": jv(&k)}));
-                    }
+            }
+        }
+    }
+
+    // lookups by values of every provenance: a key stored as owned / borrowed string or as an integer
+    // of some width, probed with the same abstract value obtained through every route
+    {
+        for p in &prov {
+            let kinds_ok = p.v.is_string() || p.v.is_bool() || (p.v.is_number() && !matches!(p.v.kind(), tera::value::ValueKind::F64));
+            if !kinds_ok {
+                continue;
+            }
+            // the stored key is built from the Rust side in a fixed representation of the same abstract value
+            let stored: Vec<Key<'static>> = if let Some(t) = p.v.as_str() {
+                vec![ks(t), kb(t)]
+            } else if let Some(b) = p.v.as_bool() {
+                vec![Key::Bool(b)]
+            } else if let Some(z) = p.v.as_i128() {
+                let mut v = vec![Key::I128(z)];
+                if let Ok(x) = u64::try_from(z) { v.push(Key::U64(x)); }
+                if let Ok(x) = i64::try_from(z) { v.push(Key::I64(x)); }
+                v
+            } else {
+                vec![Key::U128(p.v.as_u128().unwrap())]
+            };
+            for (n_extra, key) in stored.into_iter().enumerate() {
+                if !thorough && rng.chance(1, 2) {
+                    continue;
                 }
-                let g = format!(
-                    "{{| l_m := {}; l_k := {}; l_idx := {}; l_in := {}; l_cont := {}; l_get := {}; l_getd := {}; l_attr := {} |}}",
-                    gal_value(&m), gal_value(&k), r_idx.gal(gal_value), r_in.gal(gal_value), r_cont.gal(gal_value),
-                    r_get.gal(gal_value), r_getd.gal(gal_value), gal_opt(&r_attr, |r| r.gal(gal_value))
-                );
-                let desc = json!({"m": jv(&m), "k": jv(&k), "impl": {"m[k]": r_idx.json(jv), "k in m": r_in.json(jv),
-                    "containing": r_cont.json(jv), "get": r_get.json(jv), "get+default": r_getd.json(jv),
-                    "m.k": r_attr.as_ref().map(|r| r.json(jv))}});
-                let nontrivial = size >= 1 && is_keyish;
-                let tag_size = if size <= 6 { "size<=cutoff" } else { "size>cutoff" };
-                let tag_found = if found_idx { "found" } else { "not-found" };
-                let tag_attr = if r_attr.is_some() { "attr-path" } else { "no-attr" };
-                s_lookup.push(g, desc, nontrivial, None, &[tag_size, tag_found, tag_attr]);
+                let mut e: Vec<(Key<'static>, Value)> = (0..(n_extra * 7)).map(|i| (ks(&format!("fill{i}")), Value::from(i as u64))).collect();
+                e.push((key, Value::from("hit")));
+                let m = map_of(e);
+                do_lookup(&mut meta, &mut s_lookup, &m, &p.v, &p.label);
             }
         }
     }
@@ -585,6 +1126,25 @@ fn main() {
         v
     };
     let needles: Vec<Value> = ["", "a", "lo w", "ö", "日", "本日", "<b>", "hello wörld 日本!"].iter().map(|s| Value::from(*s)).collect();
+    let do_member = |meta: &mut Meta, sink: &mut Sink, c: &Value, x: &Value, prov_label: &str| -> bool {
+        let mut ctx = Context::new();
+        ctx.insert_value("c", c.clone());
+        ctx.insert_value("x", x.clone());
+        let r_in = eval_expr(&tera, "x in c", &ctx);
+        let r_cont = eval_expr(&tera, "c is containing(pat=x)", &ctx);
+        for r in [&r_in, &r_cont] {
+            meta.oracle_checks += 1;
+            if let Outcome::Panic(msg) = r {
+                meta.oracle_fail(&format!("panic in membership: {msg}"), None, json!({"c": jv(c), "x": jv(x), "provenance": prov_label}));
+            }
+        }
+        let g = format!("{{| e_c := {}; e_x := {}; e_in := {}; e_cont := {} |}}",
+            gal_value(c), gal_value(x), r_in.gal(gal_value), r_cont.gal(gal_value));
+        let desc = json!({"c": jv(c), "x": jv(x), "provenance": prov_label, "impl": {"x in c": r_in.json(jv), "containing": r_cont.json(jv)}});
+        let nontrivial = c.len().unwrap_or(0) >= 2;
+        sink.push(g, desc, nontrivial, None, &[if c.is_array() { "array" } else if c.is_string() { "string" } else { "other" }]);
+        matches!(&r_in, Outcome::Ok(v) if v.as_bool() == Some(true)) && matches!(&r_cont, Outcome::Ok(v) if v.as_bool() == Some(true))
+    };
     for _ in 0..n_member {
         let c = rng.pick(&arrays).clone();
         let x = if c.is_array() && rng.chance(2, 3) && c.len().unwrap_or(0) > 0 {
@@ -599,25 +1159,39 @@ fn main() {
         if x.is_undefined() {
             continue;
         }
-        let mut ctx = Context::new();
-        ctx.insert_value("c", c.clone());
-        ctx.insert_value("x", x.clone());
-        let r_in = eval_expr(&tera, "x in c", &ctx);
-        let r_cont = eval_expr(&tera, "c is containing(pat=x)", &ctx);
-        for r in [&r_in, &r_cont] {
+        do_member(&mut meta, &mut s_member, &c, &x, "");
+    }
+    // the same value through two routes: one inside an array (or a nested array / map value), the
+    // other as the needle
+    for &(i, j) in &same_class {
+        if !thorough && rng.chance(2, 3) {
+            continue;
+        }
+        let (x, y) = (&pool[i], &pool[j]);
+        let lab = format!("needle: {} | element: {}", labels[i], labels[j]);
+        let c = Value::from(vec![Value::from("other"), y.clone()]);
+        let r = do_member(&mut meta, &mut s_member, &c, x, &lab);
+        meta.oracle_checks += 1;
+        if !r {
+            meta.oracle_fail("`x in [.., y]` is false although x and y are the same value obtained through two routes", None,
+                json!({"c": jv(&c), "x": jv(x), "provenance": lab}));
+        }
+        if thorough || rng.chance(1, 3) {
+            let nested = Value::from(vec![Value::from(vec![y.clone()]), map_of(vec![(ks("v"), y.clone())])]);
+            let needle = if rng.chance(1, 2) { Value::from(vec![x.clone()]) } else { map_of(vec![(kb("v"), x.clone())]) };
+            let r = do_member(&mut meta, &mut s_member, &nested, &needle, &lab);
             meta.oracle_checks += 1;
-            if let Outcome::Panic(msg) = r {
-                meta.oracle_fail(&format!("panic in membership: {msg}"), None, json!({"c": jv(&c), "x": jv(&x)}));
+            if !r {
+                meta.oracle_fail("`[x] in [[y], {v: y}]` / `{v: x} in ..` is false although x and y are the same value obtained through two routes", None,
+                    json!({"c": jv(&nested), "x": jv(&needle), "provenance": lab}));
             }
         }
-        let g = format!("{{| e_c := {}; e_x := {}; e_in := {}; e_cont := {} |}}",
-            gal_value(&c), gal_value(&x), r_in.gal(gal_value), r_cont.gal(gal_value));
-        let desc = json!({"c": jv(&c), "x": jv(&x), "impl": {"x in c": r_in.json(jv), "containing": r_cont.json(jv)}});
-        let nontrivial = c.len().unwrap_or(0) >= 2;
-        s_member.push(g, desc, nontrivial, None, &[if c.is_array() { "array" } else if c.is_string() { "string" } else { "other" }]);
     }
 
     meta.extra.insert("pool_size".into(), json!(n));
+    meta.extra.insert("base_pool_size".into(), json!(n_base));
+    meta.extra.insert("provenance_pool".into(), json!({"values": prov.len(), "classes": prov.iter().map(|p| p.class).max().map_or(0, |c| c + 1),
+        "same_value_route_pairs": same_class.len()}));
     meta.extra.insert("law_oracle".into(), json!({"pairs": n * n, "triples": n * n * n, "checks": law_checks,
         "failures": law_fail.iter().map(|(k, v)| (k.to_string(), *v)).collect::<std::collections::BTreeMap<_, _>>()}));
     meta.extra.insert("oracle_only_evaluations".into(), json!(n * n * n));
